@@ -1100,8 +1100,9 @@ class Program:
             sigs = equiv.SignatureIndex(self.modules.values()) if changed_mods else None
             equiv._ACTIVE_SIGS = sigs  # pylint: disable=protected-access
             for mod in changed_mods:
-                mod.renamed = equiv.undo_renames(mod, sigs)
+                mod.renamed = equiv.undo_import_aliases(mod) + equiv.undo_renames(mod, sigs)
                 if mod.renamed:
+                    mod.imports.clear()
                     mod.defs.clear()
                     mod.assigns.clear()
                     mod._index()  # pylint: disable=protected-access
